@@ -185,8 +185,9 @@ def _lower_method(m, mp):
             _set_http(rule.additional_bindings.add(), a)
     for s in m.get("signatures", ()):
         mp.options.Extensions[client_pb2.method_signature].append(s)
-    if m.get("routing"):
+    if m.get("routing") is not None:
         rr = mp.options.Extensions[routing_pb2.routing]
+        rr.SetInParent()                # [] = the annotation is present and empty
         for p in m["routing"]:
             rp = rr.routing_parameters.add()
             rp.field = p["field"]
@@ -305,7 +306,7 @@ def lower(spec):
                     need_symbol(m["output"])
                 if m.get("http"):
                     need("google/api/annotations.proto")
-                if m.get("routing"):
+                if m.get("routing") is not None:
                     need("google/api/routing.proto")
                 if m.get("lro") is not None:
                     need("google/longrunning/operations.proto")
